@@ -13,7 +13,7 @@ use std::process::{Child, ChildStdin, Command, Stdio};
 use std::sync::mpsc;
 use std::time::{Duration, Instant};
 
-pub const WATCHDOG: Duration = Duration::from_secs(40);
+pub const WATCHDOG: Duration = Duration::from_secs(60);
 
 // ---------------------------------------------------------------------------------------------
 // worker side
